@@ -178,6 +178,34 @@ func runC14(c *Ctx, w *World, r *Report) {
 				if bitKnownSet(fa.Conds(wr.Ins.Block()), rd) {
 					guarded = true
 				}
+				// branch-free form: the source bit itself, as 0 or 1, is shifted to its place and OR-ed in:
+				// r[j>>6] |= ((words[i>>6] >> (i&63)) & 1) << (j&63)
+				if !guarded {
+					if ia, ok := wr.Ins.(*ssa.IndexAddr); ok && ia.Referrers() != nil {
+						for _, ref := range *ia.Referrers() {
+							st, ok := ref.(*ssa.Store)
+							if !ok {
+								continue
+							}
+							a, b, ok := asBin(st.Val, token.OR)
+							if !ok {
+								continue
+							}
+							for _, sel := range []ssa.Value{a, b} {
+								x, _, ok := asBin(sel, token.SHL)
+								if !ok {
+									continue
+								}
+								one, k, ok := asBinConst(stripConv(x), token.AND)
+								if ok && k == 1 && stripConv(one) == rd.Use {
+									if ub, isB := rd.Use.(*ssa.BinOp); isB && ub.Op == token.SHR {
+										guarded = true
+									}
+								}
+							}
+						}
+					}
+				}
 				if !guarded {
 					bad = "destination bit is not written exactly under (source bit != 0)"
 				}
